@@ -165,7 +165,8 @@ func readMessage(conn *net.UnixConn) (*message, error) {
 	msg := new(message)
 	msg.Type = messageType(b[0])
 	msg.Len = uint16(b[1])<<8 | uint16(b[2]) // big endian
-	if uint16(len(b[2:n])) < msg.Len {
+	// the payload follows the 3 bytes header.
+	if n-3 < int(msg.Len) {
 		return nil, errors.New("incomplete data")
 	}
 	msg.Data = b[3 : 3+msg.Len]
